@@ -75,14 +75,14 @@ QueryLog(b, a, vs) ==                                   \* b.Contain(bloom built
   /\ Log(Rec("querylog", b, "", a, vs, NoItem, "", BitsOfAll(ItemsOfLog(a, vs)) \subseteq bits[b]))
 
 Can == Len(hist) < MaxOps
-Next == \/ \E b \in BloomIds, a \in AddrIds, vs \in Logs : Can /\ AddLog(b, a, vs)
-        \/ \E b \in BloomIds, i \in Items : Can /\ AddItem(b, i)
-        \/ \E b, b2 \in BloomIds : Can /\ Merge(b, b2)
-        \/ \E b \in BloomIds : Can /\ MergeNil(b)
-        \/ \E b \in BloomIds, k \in Kinds : Can /\ Roundtrip(b, k)
-        \/ \E b, b2 \in BloomIds : Can /\ Contain(b, b2)
-        \/ \E b \in BloomIds, i \in Items : Can /\ Query(b, i)
-        \/ \E b \in BloomIds, a \in AddrIds, vs \in Logs : Can /\ QueryLog(b, a, vs)
+Next == \/ Can /\ \E b \in BloomIds, a \in AddrIds, vs \in Logs : AddLog(b, a, vs)
+        \/ Can /\ \E b \in BloomIds, i \in Items : AddItem(b, i)
+        \/ Can /\ \E b, b2 \in BloomIds : Merge(b, b2)
+        \/ Can /\ \E b \in BloomIds : MergeNil(b)
+        \/ Can /\ \E b \in BloomIds, k \in Kinds : Roundtrip(b, k)
+        \/ Can /\ \E b, b2 \in BloomIds : Contain(b, b2)
+        \/ Can /\ \E b \in BloomIds, i \in Items : Query(b, i)
+        \/ Can /\ \E b \in BloomIds, a \in AddrIds, vs \in Logs : QueryLog(b, a, vs)
 Spec == Init /\ [][Next]_vars
 
 ----------------------------------------------------------------------------
